@@ -325,7 +325,7 @@ func child(seed int64, n int, dir string) {
 		run  func(*hc.Gen, string, bool, *childStats, map[string]bool)
 	}{
 		{"load_matrix", runLoadMatrix}, {"correlated", runCorrelated}, {"special", runSpecial}, {"failing_loads", runFailingLoads},
-		{"function_grid", runFunctionGrid}, {"failing_histories", runFailingHistories}, {"record_views", runRecordViews}, {"udf_state", runUDFState},
+		{"function_grid", runFunctionGrid}, {"failing_histories", runFailingHistories}, {"record_views", runRecordViews}, {"udf_state", runUDFState}, {"session_state", runSessionState},
 	} {
 		if only := os.Getenv("C13_ONLY"); only != "" && !strings.Contains(","+only+",", ","+ph.name+",") {
 			continue // development aid: run some phases only
